@@ -116,6 +116,18 @@ static void sink(const unsigned char *s, size_t n, void *arg) {
             if (D[0] == '[' || m != 3) dv = ref_domainpart(D, dn, REF_OPTS, &fam);
             else { dv = n > 3900 ? R_ANY : ref_expect_6531(D, dn, ref_domain(D, dn, REF_OPTS), REF_OPTS); if (dv == R_ACC) fam = RF_HOST; }
         }
+        /* "... the TLD class when TLD checking classified the domain": the class is the one the shipped data gives the name the rules are applied to - the
+         * domain itself in the ASCII modes, the independently converted name in mode 6531 (reserved names first, then the row of the last label) */
+        int expcls = 0;
+        if (lv == R_ACC && dv == R_ACC && dn && D[0] != '[' && dn < 3900) {
+            char nm[4000]; size_t nl = dn; memcpy(nm, D, dn); nm[dn] = 0;
+            if (m == 3) { int hi = 0; for (size_t i = 0; i < dn; i++) if (D[i] >= 0x80) hi = 1;
+                if (hi) { char *a = NULL; if (idn2_to_ascii_8z(nm, &a, IDN2_NONTRANSITIONAL) == IDN2_OK && a && strlen(a) < sizeof nm) { nl = strlen(a); memcpy(nm, a, nl + 1); } else nl = 0; if (a) free(a); } }
+            if (nl && nm[nl - 1] != '.' && ref_domain((const unsigned char *)nm, nl, REF_OPTS) == R_ACC) {
+                if (ref_special(nm, nl)) expcls = TLD_TYPE_SPECIAL;
+                else { size_t i = nl; while (i > 0 && nm[i - 1] != '.') i--; if (i > 0) { int c = rt_lookup(&RT_PUNY, nm + i, nl - i); expcls = c ? c : -EEAV_TLD_INVALID; } else expcls = -EEAV_DOMAIN_NOT_FQDN; }
+            }
+        }
         for (int t = 0; t < 2; t++) for (int via = 0; via < 2; via++) {
             /* via 0: the callback's own record; via 1: eav_t.result of a long-lived object after eav_is_email (what a caller of the
              * object API sees - the record must belong to THIS call, whatever was validated before) */
@@ -129,6 +141,8 @@ static void sink(const unsigned char *s, size_t n, void *arg) {
                    if (ret == 0 && r->rc < 0 && e->errcode != -r->rc) viol("object:errcode-contradicts-result-record", m, t, s, n, "errcode %d but eav_t.result->rc=%d (stale record?)", e->errcode, r->rc); }
             MC_ADD(C_EVAL, 1);
             int rc = r->rc, nf = r->is_ipv4 + r->is_ipv6 + r->is_domain;
+            if (t && expcls && rc != expcls && !(m == 3 && rc == -EEAV_IDN_ERROR))
+                viol(expcls > 0 ? "rc:not-the-class-of-the-domain" : "rc:unclassifiable-domain-got-another-code", m, t, s, n, "TLD checking on: the shipped data give this domain %s %d, result record says rc=%d", expcls > 0 ? "class" : "code", expcls, rc);
             if (nf > 1) viol("more-than-one-flag", m, t, s, n, "flags v4=%d v6=%d dom=%d", r->is_ipv4, r->is_ipv6, r->is_domain);
             if (rc >= 0) {
                 MC_ADD(C_ACCEPTED, 1);
